@@ -23,6 +23,17 @@ def run(prop, tier):
         floors = getattr(mod, "FLOORS", {})
         for rid, n in floors.items():
             ctx.floor(rid, ctx.rule_instances.get(rid, 0), n)
+        extra = {}
+        if tier == "thorough":
+            # deeper rules of the property (derived identities, whole-class sweeps) ...
+            if hasattr(mod, "thorough"):
+                mod.thorough(ctx)
+            # ... and the arming report: how many rule instances are shown to fire on scratch mutants
+            from . import arming
+
+            extra["arming"] = arming.report(ctx)
+            extra["arming_note"] = ("variants are edits of scratch copies of the module under a temporary directory (removed afterwards); "
+                                    "the report is informational and never changes this check's exit status")
         return finish(
             ctx,
             getattr(mod, "LEVEL_NOTE", ""),
@@ -30,6 +41,7 @@ def run(prop, tier):
             t0,
             getattr(mod, "EXPLANATION", ""),
             exhaustive=getattr(mod, "EXHAUSTIVE", False),
+            extra=extra,
         )
     except AnalysisError as e:
         print("ANALYSIS-ERROR property=%s %s" % (prop, e))
